@@ -9,9 +9,16 @@ import (
 // solveOblig: a quick attempt on the whole query; if that is not decisive and the contract
 // names split conditions, the query is decided by exhaustive case analysis over them (every
 // case must be unsat; a sat case is a counterexample of the whole query); finally the race.
+// knownOpen: obligations listed as open findings in known_findings.json (by base name).
+var knownOpen = map[string]bool{}
+
 func solveOblig(o *Oblig, budget int) SolveResult {
 	if r, ok := cacheLookup(o); ok {
 		return r
+	}
+	if knownOpen[baseObl(o.Name)] && budget > 6 {
+		// recorded as failing on the unchanged tree: do not spend the budget rediscovering that
+		budget = 6
 	}
 	r := solveObligUncached(o, budget)
 	cacheStore(o, r)
